@@ -256,14 +256,21 @@ def check_read_sites(F, rep):
             # read_bytes(start, end) itself: loads exactly the range it was asked for
             lbs = [c_ for c_ in an.calls() if c_.callee_qual == "elf_stream::CachingReader::load_bytes"]
             want_r = T.agg("adt", "ops::Range", 0, "Range", [T.param(2), T.param(3)])
-            rep.require(len(lbs) == 1 and lbs[0].args[1] is want_r, "lazy-read-site", RB + "|load_bytes", wh(fn["span"]), "read_bytes(start, end) loads start..end",
+            if len(fn["sig"].get("inputs", [])) == 2 or len(fn["body"].get("args", [1, 2, 3])) == 2:
+                want_r = T.param(2)        # read_bytes(range): loads that very range
+            rep.require(len(lbs) == 1 and (lbs[0].args[1] is want_r or lbs[0].args[1] is T.param(2)), "lazy-read-site", RB + "|load_bytes", wh(fn["span"]), "read_bytes(start, end) loads start..end",
                         "read_bytes loads %s, not the range start..end it was asked for" % [pp(c_.args[1])[:120] for c_ in lbs])
             continue
         if fn["qual"] not in OPEN:
             n_query += sum(1 for c_ in an.calls() if (prog.local_fn(c_.callee) or {}).get("qual") in reading)
         for cs in an.calls():
             if cs.callee_qual == "elf_stream::CachingReader::read_bytes":
-                start, end = cs.args[1], cs.args[2]
+                from ..prov import read_bytes_bounds
+                bnd_ = read_bytes_bounds(cs.args)
+                if bnd_ is None:
+                    rep.bad("lazy-read-site", "%s|read_bytes" % fn["qual"], cs.where(), "UNRECOGNISED read_bytes call shape")
+                    continue
+                start, end = bnd_
             elif cs.callee_qual == "elf_stream::CachingReader::load_bytes":
                 r = cs.args[1]
                 if r.op != "agg":
